@@ -23,6 +23,7 @@ package main
 import (
 	"fmt"
 	"math/bits"
+	"runtime"
 	"sort"
 	"strings"
 	"sync"
@@ -141,6 +142,7 @@ var c19Tables0 = c19Tables()
 type c19Call struct {
 	fid        int
 	p1, p2, p3 uint64
+	bad        bool // an out-of-range call (error path): generator-side mark only
 }
 
 var c19Names = map[int]string{
@@ -151,6 +153,7 @@ var c19Names = map[int]string{
 	20: "bmtree.PathToIndex", 21: "bmtree.PathToIndexLoose", 22: "bmtree.IndexToPath", 23: "bmtree.AllPaths", 24: "bmtree.Decode",
 	25: "bmtree.PathOf", 26: "bmtree.PathsOf",
 	30: "bitstr.Cmp", 31: "bitstr.CmpUpto", 32: "bitstr.StrCmpUpto", 33: "bitstr.Len", 34: "bitstr.New",
+	46: "bitword.ToStr/prefix",
 	40: "bitword.FromStr", 41: "bitword.ToStr", 42: "bitword.Get", 43: "bitword.FirstDiff", 44: "bitword.FromStrs", 45: "bitword.ToStrs",
 	// every goroutine OWNS what it builds, the inputs are shared (widening: Spec/Ownership.v)
 	60: "bitmap.Of", 61: "bitmap.Builder", 62: "bitmap.TailBitmap",
@@ -160,7 +163,7 @@ var c19Names = map[int]string{
 // the functions C19 lists (the others are neighbours: widening)
 var c19Listed = map[int]bool{1: true, 2: true, 3: true, 4: true, 5: true, 6: true, 7: true, 8: true, 9: true, 10: true,
 	20: true, 21: true, 22: true, 23: true, 24: true, 30: true, 31: true, 32: true,
-	40: true, 41: true, 42: true, 43: true, 44: true, 45: true, 50: true, 51: true, 52: true}
+	40: true, 41: true, 42: true, 43: true, 44: true, 45: true, 46: true, 50: true, 51: true, 52: true}
 
 func c19Pair(a, b int32) string { return L(I32(a), I32(b)) }
 
@@ -282,6 +285,9 @@ func c19Do(sh *c19Shared, c c19Call) string {
 		return c19Bytes(bitword.BitWord[int(c.p1)].FromStr(sh.keys[c.p2]))
 	case 41:
 		return Str(bitword.BitWord[int(c.p1)].ToStr(sh.fs[int(c.p1)][c.p2]))
+	case 46:
+		// ToStr of a PREFIX VIEW of the shared word array of key p2: the words behind the view are live data
+		return Str(bitword.BitWord[int(c.p1)].ToStr(sh.fs[int(c.p1)][c.p2][:c.p3]))
 	case 42:
 		return Int(int(bitword.BitWord[int(c.p1)].Get(sh.keys[c.p2], int(c.p3))))
 	case 43:
@@ -335,7 +341,30 @@ func c19Do(sh *c19Shared, c c19Call) string {
 	panic("c19: unknown function id")
 }
 
-func c19Try(sh *c19Shared, c c19Call) string { return try(func() string { return c19Do(sh, c) }) }
+// c19Run runs one call; a panic is recovered and its VALUE is handed back (not formatted: the caller decides when).
+func c19Run(sh *c19Shared, c c19Call) (out string, pv interface{}) {
+	defer func() {
+		if e := recover(); e != nil {
+			out, pv = "", e
+		}
+	}()
+	return c19Do(sh, c), nil
+}
+
+// c19PanicText renders a recovered panic value: its type and what it says.  On the error path this IS the result of
+// the call; a value that is shared between callers (one reused error object) says something else later.
+func c19PanicText(pv interface{}) string {
+	return L(Str("panic"), Str(fmt.Sprintf("%T: %v", pv, pv)))
+}
+
+// c19Try: the call alone - a panic value is rendered at once.
+func c19Try(sh *c19Shared, c c19Call) string {
+	out, pv := c19Run(sh, c)
+	if pv != nil {
+		return c19PanicText(pv)
+	}
+	return out
+}
 
 func c19CallText(c c19Call, ref string) string {
 	return L(Int(c.fid), U(c.p1), U(c.p2), U(c.p3), ref)
@@ -352,11 +381,12 @@ func init() {
 		sh := c19Build(a[2].U64s(), a[3].I32(), c19OneBacking(a[4].Strs()))
 		calls := make([]c19Call, len(a[5].L))
 		for i, c := range a[5].L {
-			calls[i] = c19Call{c.L[0].Int(), c.L[1].U64(), c.L[2].U64(), c.L[3].U64()}
+			calls[i] = c19Call{fid: c.L[0].Int(), p1: c.L[1].U64(), p2: c.L[2].U64(), p3: c.L[3].U64()}
 		}
 		n := len(calls)
 		derived0 := sh.derived()
 		results := make([][]string, T)
+		keptAll := make([][][]interface{}, T)
 		start := make(chan struct{})
 		var wg sync.WaitGroup
 		for t := 0; t < T; t++ {
@@ -366,6 +396,7 @@ func init() {
 				res := make([]string, n)
 				seen := make([]bool, n)
 				changed := make([]bool, n)
+				kept := make([][]interface{}, n) // recovered panic values, rendered only AFTER the whole batch
 				<-start
 				for r := 0; r < R*c19RepFactor; r++ {
 					for k := 0; k < n; k++ {
@@ -374,7 +405,13 @@ func init() {
 						if t&1 == 1 {
 							idx = n - 1 - idx
 						}
-						out := c19Try(sh, calls[idx])
+						out, pv := c19Run(sh, calls[idx])
+						if pv != nil {
+							if len(kept[idx]) < 4 {
+								kept[idx] = append(kept[idx], pv)
+							}
+							continue
+						}
 						if !seen[idx] {
 							seen[idx], res[idx] = true, out
 						} else if out != res[idx] && !changed[idx] {
@@ -383,17 +420,104 @@ func init() {
 					}
 				}
 				results[t] = res
+				keptAll[t] = kept
 			}(t)
 		}
 		close(start)
 		wg.Wait()
+		// the error path: what the kept panic values say now that every goroutine has finished
+		for t := range keptAll {
+			for idx, vs := range keptAll[t] {
+				for _, pv := range vs {
+					out := c19PanicText(pv)
+					if results[t][idx] == "" {
+						results[t][idx] = out
+					} else if out != results[t][idx] {
+						results[t][idx] = out
+						break
+					}
+				}
+			}
+		}
 		ths := make([]string, T)
 		for t := range results {
 			ths[t] = L(results[t]...)
 		}
 		return L(L(ths...), U64s(sh.words), Strs(sh.keys), B(sh.derived() == derived0), B(c19Tables() == c19Tables0))
 	}
+	// c19.BigKeys  args = [T, n, start, stride, ref]: n counter keys (4 bytes big-endian, start + i*stride), shared by
+	// T goroutines that each compute FirstDiffBits(keys) and sigbits.New(keys).CountPrefixes over all of them; the
+	// observation is every goroutine's digest [len, sum, weighted sum, CountPrefixes answer] and "keys unchanged".
+	// ref = the digest computed alone under GOMAXPROCS(1) (the sequential reference).  Compact arguments: the case is
+	// among the slowest of the run and is re-run by the harness under GOMAXPROCS 3 / 33 / 97.
+	Exec["c19.BigKeys"] = func(a []V) string {
+		T, n := a[0].Int(), a[1].Int()
+		if T < 1 || T > 64 || n < 2 || n > 1<<21 {
+			panic("c19: bad T/n")
+		}
+		keys := c19CounterKeys(n, a[2].U64(), a[3].U64())
+		sum0 := c19KeySum(keys)
+		res := make([]string, T)
+		start := make(chan struct{})
+		var wg sync.WaitGroup
+		for t := 0; t < T; t++ {
+			wg.Add(1)
+			go func(t int) {
+				defer wg.Done()
+				<-start
+				res[t] = try(func() string { return c19KeyDigest(keys) })
+			}(t)
+		}
+		close(start)
+		wg.Wait()
+		return L(L(res...), B(c19KeySum(keys) == sum0))
+	}
 	Register("C19", genC19)
+}
+
+func c19CounterKeys(n int, start, stride uint64) []string {
+	buf := make([]byte, 4*n)
+	for i := 0; i < n; i++ {
+		v := uint32(start + uint64(i)*stride)
+		buf[4*i], buf[4*i+1], buf[4*i+2], buf[4*i+3] = byte(v>>24), byte(v>>16), byte(v>>8), byte(v)
+	}
+	all := string(buf)
+	keys := make([]string, n)
+	for i := range keys {
+		keys[i] = all[4*i : 4*i+4]
+	}
+	return keys
+}
+
+func c19KeySum(keys []string) uint64 {
+	h := uint64(len(keys))
+	for _, k := range keys {
+		for i := 0; i < len(k); i++ {
+			h = h*1099511628211 + uint64(k[i])
+		}
+	}
+	return h
+}
+
+func c19KeyDigest(keys []string) string {
+	ds := sigbits.FirstDiffBits(keys)
+	var sum, wsum uint64
+	for i, d := range ds {
+		sum += uint64(d)
+		wsum = (wsum + uint64(i+1)*uint64(d)) % (1<<61 - 1)
+	}
+	m, cnt := sigbits.New(keys).CountPrefixes(0, int32(len(keys)), 9)
+	return L(Int(len(ds)), U(sum), U(wsum), I32(m), I32s(cnt))
+}
+
+// bigKeys: the digest alone under GOMAXPROCS(1) is the reference; then the case.
+func (x *c19Gen) bigKeys(T, n int, start, stride uint64) {
+	g := x.g
+	old := runtime.GOMAXPROCS(1)
+	ref := try(func() string { return c19KeyDigest(c19CounterKeys(n, start, stride)) })
+	runtime.GOMAXPROCS(old)
+	g.Stat("big-keys")
+	g.Do("c19.BigKeys", L(Int(T), Int(n), U(start), U(stride), ref), fmt.Sprintf("big/T%d/n%s/stride%d", T, c19Bucket(n, 262143, 262144, 300000, 524288), stride))
 }
 
 // ---------------------------------------------------------------------------- generator
@@ -461,6 +585,45 @@ func (x *c19Gen) call(fid int) (c19Call, bool) {
 	}
 	return x.callOn(fid)
 }
+
+// callBad: an OUT-OF-RANGE call of function fid (the error path: the call panics, or answers whatever it answers -
+// deterministically).  ok=false when there is none for this function.
+func (x *c19Gen) callBad(fid int) (c19Call, bool) {
+	r := x.g.R
+	words, alt := x.words, 0
+	if c19AltOK[fid] && r.Bool() {
+		words, alt = x.words2, 100
+	}
+	n := 64 * len(words)
+	c := c19Call{fid: fid + alt, bad: true}
+	neg := func() uint64 { return uint64(int64(-1 - r.Intn(5))) }
+	switch fid {
+	case 1, 2, 11, 12:
+		c.p1 = uint64(n + r.Intn(130))
+	case 3, 4:
+		// beyond the select index (32 ones per entry), or negative
+		if r.Intn(3) == 0 {
+			c.p1 = neg()
+		} else {
+			c.p1 = uint64(32*(popcount(words)/32+1) + 32 + r.Intn(200))
+		}
+	case 5:
+		c.p1, c.p2 = uint64(n+r.Intn(70)), uint64(n+70)
+	case 9:
+		c.p1, c.p2 = uint64(n/8+r.Intn(9)), 8
+	case 42:
+		k := r.Intn(len(x.keys))
+		c.p1, c.p2, c.p3 = 8, uint64(k), uint64(len(x.keys[k])+r.Intn(4))
+	case 52:
+		s := r.Range(1, len(x.keys))
+		c.p1, c.p2, c.p3 = uint64(s), uint64(r.Intn(s)), uint64(r.Range(2, 9))
+	default:
+		return c, false
+	}
+	return c, true
+}
+
+var c19BadFids = []int{1, 2, 3, 3, 3, 4, 4, 5, 9, 11, 12, 42, 52}
 
 func (x *c19Gen) callOn(fid int) (c19Call, bool) {
 	r := x.g.R
@@ -558,6 +721,10 @@ func (x *c19Gen) callOn(fid int) (c19Call, bool) {
 		w := r.Pick(1, 2, 4, 8)
 		k := r.Intn(nk)
 		c.p1, c.p2, c.p3 = uint64(w), uint64(k), uint64(r.Intn(len(x.keys[k])*8/w))
+	case 46:
+		w := r.Pick(1, 1, 2, 4, 8)
+		k := r.Intn(nk)
+		c.p1, c.p2, c.p3 = uint64(w), uint64(k), uint64(r.Intn(len(x.keys[k])*8/w+1))
 	case 43:
 		c.p1, c.p2, c.p3 = uint64(r.Pick(1, 2, 4, 8)), uint64(r.Intn(nk)), uint64(r.Intn(nk))
 	case 44, 45:
@@ -647,6 +814,9 @@ func (x *c19Gen) againstModel(calls []c19Call) {
 	start := g.R.Intn(len(calls))
 	for k := range calls {
 		c := calls[(start+k)%len(calls)]
+		if c.bad {
+			continue
+		}
 		ws := x.words
 		if c.fid > 100 {
 			ws = x.words2
@@ -802,6 +972,9 @@ func genC19(g *Gen) {
 			for j := 0; j < nk; j++ {
 				add(43, uint64(w), uint64(k), uint64(j))
 			}
+			for pre := 0; pre <= len(x.keys[k])*8/w; pre++ {
+				add(46, uint64(w), uint64(k), uint64(pre))
+			}
 		}
 	}
 	for _, w := range c19Widths {
@@ -920,10 +1093,76 @@ func genC19(g *Gen) {
 	g.Exhaust = append(g.Exhaust, fmt.Sprintf("c19: each of the %d function ids alone from 8 goroutines x every in-domain argument over the fixed inputs "+
 		"(2 words, bitmapSize 0b1011, 4 keys; positions 0..127 and 0..191 of the second shared bitmap, every Getw width, every key pair, every stored path, every (height<=4, index))", len(c19Fids)))
 
+	// (1b) the error paths of the fixed inputs in one batch: out-of-range calls with DIFFERENT arguments side by side
+	// (the recovered panic values are kept and rendered after the batch)
+	{
+		var cs []c19Call
+		for _, i := range []int64{-3, -2, -1, 128, 129, 130, 131, 200, 1 << 20} {
+			for _, f := range []int{3, 4, 103, 104} {
+				cs = append(cs, c19Call{fid: f, p1: uint64(i), bad: true})
+			}
+		}
+		for _, i := range []uint64{128, 129, 191, 192, 193, 1000} {
+			for _, f := range []int{1, 2, 11, 12, 101, 111} {
+				cs = append(cs, c19Call{fid: f, p1: i, bad: true})
+			}
+			cs = append(cs, c19Call{fid: 5, p1: i, p2: i + 64, bad: true}, c19Call{fid: 9, p1: i, p2: 8, bad: true})
+		}
+		for k := 0; k < nk; k++ {
+			for d := 0; d < 3; d++ {
+				cs = append(cs, c19Call{fid: 42, p1: 8, p2: uint64(k), p3: uint64(len(x.keys[k]) + d), bad: true})
+			}
+		}
+		cs = append(cs, c19Call{fid: 52, p1: 2, p2: 1, p3: 4, bad: true}, c19Call{fid: 52, p1: 3, p2: 0, p3: 4, bad: true})
+		r.shuffleCalls(cs)
+		for len(cs) > 0 {
+			k := len(cs)
+			if k > 48 {
+				k = 48
+			}
+			x.emit(8, 2, cs[:k], "error-paths-fixed")
+			cs = cs[k:]
+		}
+	}
+
+	// (1c) a key set large enough for code that splits work by the number of CPUs (>= 2^18 keys): compact counter keys
+	x.bigKeys(8, 1<<18, 0, 1)
+	if g.Thorough {
+		for _, n := range []int{1<<18 - 1, 1<<18 + 1, 300000, 1 << 19} {
+			x.bigKeys(r.Range(8, 16), n, uint64(r.Intn(1000)), uint64(r.Pick(1, 3, 257)))
+		}
+	}
+
+	// (1d) big trees: height 10..11 (>= 1024 candidate paths, results of hundreds of paths), Decode / AllPaths held by
+	// several goroutines at once - buffers that are pooled or cached only above a size threshold
+	for b := 0; b < g.N(6, 40); b++ {
+		h := uint(r.Pick(10, 10, 11))
+		t := int32(1)<<(h+1) - 1 // full
+		if r.Intn(3) == 0 {
+			t = int32(1)<<h | int32(r.U64())&(1<<h-1)
+		}
+		ws := make([]uint64, (1<<(h+1))/64)
+		for i := range ws {
+			ws[i] = r.U64() | r.U64()
+		}
+		x.setInputs(ws, t, c19Keys(r, 3))
+		var calls []c19Call
+		for _, f := range []int{24, 124, 24, 23, 124} {
+			if c, ok := x.callOn(f % 100); ok {
+				c.fid = f
+				if f == 23 {
+					c.p1, c.p2 = 0, 1<<63
+				}
+				calls = append(calls, c)
+			}
+		}
+		x.emit(8, 1, calls, "big-tree")
+	}
+
 	// (2) mixed batches of all functions over random shared inputs, 8..16 goroutines.
 	// First over ascending sizes (capacity boundaries of a hidden scratch buffer are crossed in order),
 	// then random.
-	nb := g.N(1000, 10000)
+	nb := g.N(600, 8000)
 	for b := 0; b < nb; b++ {
 		var nw, nkeys int
 		if b < 64 {
@@ -960,7 +1199,17 @@ func genC19(g *Gen) {
 			pool = c19Fids
 		}
 		nc := r.Range(6, 28)
+		errPath := r.Intn(3) == 0 // one batch in three also takes error paths
+		if errPath {
+			bucket += "+error-paths"
+		}
 		for len(calls) < nc {
+			if errPath && r.Intn(4) == 0 {
+				if c, ok := x.callBad(c19BadFids[r.Intn(len(c19BadFids))]); ok {
+					calls = append(calls, c)
+				}
+				continue
+			}
 			if c, ok := x.call(pool[r.Intn(len(pool))]); ok {
 				calls = append(calls, c)
 			} else if len(pool) <= 2 {
@@ -972,7 +1221,7 @@ func genC19(g *Gen) {
 
 	// (3) the string alias: StrCmpUpto / CmpUpto / Cmp on keys that share the bytes of ONE backing array
 	// (substrings of one string), so a write through the alias would be seen by the neighbours.
-	for b := 0; b < g.N(120, 1200); b++ {
+	for b := 0; b < g.N(80, 1000); b++ {
 		base := string(r.Bytes(r.Range(4, 40), alphabets[r.Intn(len(alphabets))]))
 		set := map[string]bool{}
 		for i := 0; i < 12; i++ {
